@@ -178,6 +178,11 @@ func c20MakePayloads(id int, seed uint64) (*c20Payloads, error) {
 	case 3:
 		p.tok["a"] = c20Bytes(seed+2, 1<<20, true)
 		p.tok["b"] = c20Bytes(seed+3, 64<<10, false)
+	case 4:
+		// "for any input": sizes beyond the encoders' block (128 KiB) and window (8 MiB) sizes - a: 9 MiB that
+		// shrink to about a kilobyte (decoders have shortcuts for small inputs), b: 200 KiB that do not shrink
+		p.tok["a"] = bytes.Repeat([]byte("connect conformance: the quick brown fox "), (9<<20)/41+1)
+		p.tok["b"] = c20Bytes(seed+4, 200<<10, false)
 	}
 	for _, enc := range c20Encs {
 		p.valid[enc] = map[string][]byte{}
@@ -795,7 +800,8 @@ func TestVerifC20Replay(t *testing.T) {
 	defer out.Close()
 	variants := verifutil.EnvInt("VERIF_VARIANTS", 2)
 	allPos := verifutil.EnvInt("VERIF_ALLPOS", 0)     // >0: every cut position and up to that many flipped bits
-	bigEvery := verifutil.EnvInt("VERIF_BIG_EVERY", 0) // >0: every n-th scenario also with the 1 MiB payload set
+	bigEvery := verifutil.EnvInt("VERIF_BIG_EVERY", 0)   // >0: every n-th scenario also with the 1 MiB payload set
+	hugeEvery := verifutil.EnvInt("VERIF_HUGE_EVERY", 0) // >0: every n-th scenario also with the 9 MiB payload set
 	scns := make([]*c20Scn, len(lines))
 	for i, l := range lines {
 		var s c20Scn
@@ -813,7 +819,11 @@ func TestVerifC20Replay(t *testing.T) {
 	}
 	seed := verifutil.Seed()
 	var pss []*c20Payloads
-	for id := 0; id < 4; id++ {
+	nsets := 4
+	if hugeEvery > 0 {
+		nsets = 5
+	}
+	for id := 0; id < nsets; id++ {
 		ps, err := c20MakePayloads(id, seed)
 		if err != nil {
 			t.Fatalf("payload set %d: %v", id, err)
@@ -909,6 +919,10 @@ func TestVerifC20Replay(t *testing.T) {
 			}
 			if bigEvery > 0 && i%bigEvery == 0 {
 				check(i, enc, s, c20Conc{PayloadSet: 3, Chunk: 70000, SrcPattern: r.IntN(4), Ctor: "get", Seed: r.Uint64(), CutAt: -1, FlipBit: -1})
+			}
+			if hugeEvery > 0 && i%hugeEvery == 0 {
+				// source kind 0 is the *bytes.Buffer that connect's pools and the tracer pass
+				check(i, enc, s, c20Conc{PayloadSet: 4, Chunk: 1 << 20, SrcPattern: 0, Ctor: []string{"get", "new"}[i/hugeEvery%2], Seed: r.Uint64(), CutAt: -1, FlipBit: -1})
 			}
 			if allPos > 0 {
 				hasCut, hasFlip := false, false
